@@ -384,6 +384,14 @@ func (p *Prog) Region(key string) []*FuncInfo {
 // anchorFor maps a function to the audited anchor whose region (the anchor plus its
 // private helpers) contains it; table rows are keyed by anchors, so that code moved
 // into a helper of an audited function keeps its audit (and its re-verified sub-facts).
+// inspectRegion walks the declarations of the anchor function and of its private helpers.
+func (p *Prog) inspectRegion(key string, f func(rf *FuncInfo, n ast.Node) bool) {
+	for _, rf := range p.Region(key) {
+		rf := rf
+		ast.Inspect(rf.Decl, func(n ast.Node) bool { return f(rf, n) })
+	}
+}
+
 func (p *Prog) anchorFor(fi *FuncInfo, anchors []string) string {
 	if fi == nil {
 		return ""
